@@ -410,9 +410,14 @@ func extractWalkerSpec(w *strings.Builder) error {
 		fileUnknown = append(fileUnknown, "func bclPath not found")
 	} else {
 		body := src(fset, fd.Body)
-		params := src(fset, fd.Type.Params)
-		if body != "{ return &bcl_j5pb.Path{Path: strings} }" || params != "(strings ...string)" {
-			fileUnknown = append(fileUnknown, "func bclPath has an unexpected shape: "+params+" "+body)
+		paramsOK := false
+		if ps := fd.Type.Params; ps != nil && len(ps.List) == 1 && len(ps.List[0].Names) == 1 && ps.List[0].Names[0].Name == "strings" {
+			if el, ok := ps.List[0].Type.(*ast.Ellipsis); ok && exprString(el.Elt) == "string" {
+				paramsOK = true
+			}
+		}
+		if body != "{ return &bcl_j5pb.Path{Path: strings} }" || !paramsOK || fd.Recv != nil {
+			fileUnknown = append(fileUnknown, "func bclPath has an unexpected shape: "+body)
 		}
 	}
 
@@ -506,7 +511,259 @@ func extractWalkerSpec(w *strings.Builder) error {
 // ---------------------------------------------------------------------------------------------
 // walkerschema
 
-const walkerSchemaDumpProgram = `@@PROGRAM@@`
+const walkerSchemaDumpProgram = `// walkerschema dump: the j5 schema closure of sourcedef_j5pb.SourceFile as the BCL walker sees it
+// through j5reflect. Runs inside /repo (public packages only). Output: one record per line,
+// fields separated by TAB, strings Go-quoted (%q).
+package main
+
+import (
+	"fmt"
+	"os"
+	"sort"
+	"strings"
+
+	"github.com/iancoleman/strcase"
+	"github.com/pentops/j5/gen/j5/schema/v1/schema_j5pb"
+	"github.com/pentops/j5/gen/j5/sourcedef/v1/sourcedef_j5pb"
+	"github.com/pentops/j5/lib/j5reflect"
+	"github.com/pentops/j5/lib/j5schema"
+	"google.golang.org/protobuf/reflect/protoreflect"
+	"google.golang.org/protobuf/types/dynamicpb"
+)
+
+type hasProps interface {
+	FullName() string
+	ClientProperties() []*j5schema.ObjectProperty
+}
+
+var (
+	seenSchema = map[string]bool{}
+	seenEnum   = map[string]bool{}
+	out        []string
+	enumOut    []string
+	refl       = j5reflect.New()
+	problems   []string
+)
+
+func q(s string) string { return fmt.Sprintf("%q", s) }
+
+func scalarKind(t schema_j5pb.IsField_Type) string {
+	switch st := t.(type) {
+	case *schema_j5pb.Field_String_:
+		return "string"
+	case *schema_j5pb.Field_Bool:
+		return "bool"
+	case *schema_j5pb.Field_Bytes:
+		return "bytes"
+	case *schema_j5pb.Field_Date:
+		return "date"
+	case *schema_j5pb.Field_Timestamp:
+		return "timestamp"
+	case *schema_j5pb.Field_Decimal:
+		return "decimal"
+	case *schema_j5pb.Field_Key:
+		return "key"
+	case *schema_j5pb.Field_Float:
+		switch st.Float.Format {
+		case schema_j5pb.FloatField_FORMAT_FLOAT32:
+			return "float32"
+		case schema_j5pb.FloatField_FORMAT_FLOAT64:
+			return "float64"
+		}
+		return "?float"
+	case *schema_j5pb.Field_Integer:
+		switch st.Integer.Format {
+		case schema_j5pb.IntegerField_FORMAT_INT32:
+			return "int32"
+		case schema_j5pb.IntegerField_FORMAT_INT64:
+			return "int64"
+		case schema_j5pb.IntegerField_FORMAT_UINT32:
+			return "uint32"
+		case schema_j5pb.IntegerField_FORMAT_UINT64:
+			return "uint64"
+		}
+		return "?integer"
+	}
+	return fmt.Sprintf("?%T", t)
+}
+
+// fieldType prints the type expression and queues the schemas it refers to. md is the message
+// descriptor of a message-typed field (nil otherwise), ed the enum descriptor.
+func fieldType(fs j5schema.FieldSchema, fd protoreflect.FieldDescriptor) string {
+	switch st := fs.(type) {
+	case *j5schema.ObjectField:
+		visit(st.Schema(), fd.Message())
+		return "object " + q(st.Ref.FullName())
+	case *j5schema.OneofField:
+		if fd == nil {
+			problems = append(problems, "exposed oneof wrapper "+st.Ref.FullName())
+			return "oneof " + q(st.Ref.FullName())
+		}
+		visit(st.Schema(), fd.Message())
+		return "oneof " + q(st.Ref.FullName())
+	case *j5schema.EnumField:
+		visitEnum(st.Schema())
+		return "enum " + q(st.Ref.FullName())
+	case *j5schema.AnyField:
+		return "any"
+	case *j5schema.ScalarSchema:
+		return "scalar " + scalarKind(st.Proto.Type)
+	case *j5schema.ArrayField:
+		return "array (" + fieldType(st.Schema, fd) + ")"
+	case *j5schema.MapField:
+		return "map (" + fieldType(st.Schema, fd.MapValue()) + ")"
+	}
+	problems = append(problems, fmt.Sprintf("unknown field schema %T", fs))
+	return "unknown"
+}
+
+func visitEnum(es *j5schema.EnumSchema) {
+	name := es.FullName()
+	if seenEnum[name] {
+		return
+	}
+	seenEnum[name] = true
+	var b strings.Builder
+	fmt.Fprintf(&b, "E\t%s\t%s", q(name), q(es.NamePrefix))
+	for _, o := range es.Options {
+		fmt.Fprintf(&b, "\t%s\t%d", q(o.Name()), o.Number())
+	}
+	enumOut = append(enumOut, b.String())
+}
+
+func visit(s hasProps, md protoreflect.MessageDescriptor) {
+	name := s.FullName()
+	if seenSchema[name] {
+		return
+	}
+	seenSchema[name] = true
+	_, isOneof := s.(*j5schema.OneofSchema)
+	idx := len(out)
+	out = append(out, "") // reserve the slot: pre-order
+	var b strings.Builder
+	fmt.Fprintf(&b, "S\t%s\t%v\t%s", q(name), isOneof, q(string(md.FullName())))
+	props := s.ClientProperties()
+
+	// cross-check with what j5reflect reports for a message of this type
+	var rNames []string
+	var rReq []bool
+	root, err := refl.NewRoot(dynamicpb.NewMessage(md))
+	if err != nil {
+		problems = append(problems, "NewRoot "+name+": "+err.Error())
+	} else {
+		if root.SchemaName() != name {
+			problems = append(problems, "SchemaName "+root.SchemaName()+" != "+name)
+		}
+		_ = root.RangePropertySchemas(func(n string, required bool, _ *schema_j5pb.Field) error {
+			rNames = append(rNames, n)
+			rReq = append(rReq, required)
+			return nil
+		})
+		if len(rNames) != len(props) {
+			problems = append(problems, "property count differs for "+name)
+		}
+	}
+	lines := []string{}
+	for i, p := range props {
+		if i < len(rNames) && (rNames[i] != p.JSONName || rReq[i] != p.Required) {
+			problems = append(problems, "property order / required differs for "+name+"."+p.JSONName)
+		}
+		// resolve the proto path
+		walk := md
+		var fd protoreflect.FieldDescriptor
+		var pathNames []string
+		var nums []string
+		for k, num := range p.ProtoField {
+			fd = walk.Fields().ByNumber(num)
+			if fd == nil {
+				problems = append(problems, fmt.Sprintf("no field %d in %s", num, walk.FullName()))
+				break
+			}
+			pathNames = append(pathNames, fd.JSONName())
+			nums = append(nums, fmt.Sprint(int(num)))
+			if k < len(p.ProtoField)-1 {
+				walk = fd.Message()
+			}
+		}
+		presence := false
+		group := ""
+		if fd != nil {
+			presence = fd.HasPresence()
+			if oo := fd.ContainingOneof(); oo != nil && !oo.IsSynthetic() {
+				group = string(oo.FullName())
+			}
+		}
+		single := ""
+		hasSingle := false
+		alias := ""
+		hasAlias := false
+		switch st := p.Schema.(type) {
+		case *j5schema.ArrayField:
+			if st.Ext != nil && st.Ext.SingleForm != nil {
+				single, hasSingle = *st.Ext.SingleForm, true
+			}
+			if of, ok := st.Schema.(*j5schema.ObjectField); ok {
+				// what arrayName() computes from the j5 field proto: the ref's schema name
+				f := of.ToJ5Field().GetObject()
+				n := ""
+				if r := f.GetRef(); r != nil {
+					n = r.Schema
+				} else if in := f.GetObject(); in != nil {
+					n = in.Name
+				}
+				alias, hasAlias = strcase.ToLowerCamel(n), true
+			}
+		case *j5schema.MapField:
+			if st.Ext != nil && st.Ext.SingleForm != nil {
+				single, hasSingle = *st.Ext.SingleForm, true
+			}
+		}
+		opt := func(has bool, s string) string {
+			if !has {
+				return "none"
+			}
+			return q(s)
+		}
+		lines = append(lines, fmt.Sprintf("P\t%s\t%v\t%s\t%s\t%s\t%v\t%s\t%s\t%s",
+			q(p.JSONName), p.Required, fieldType(p.Schema, fd), opt(hasSingle, single), opt(hasAlias, alias),
+			presence, opt(group != "", group), strings.Join(pathNames, ","), strings.Join(nums, ",")))
+	}
+	out[idx] = b.String() + "\n" + strings.Join(lines, "\n")
+}
+
+func main() {
+	msg := (&sourcedef_j5pb.SourceFile{}).ProtoReflect()
+	cache := j5schema.NewSchemaCache()
+	rootSchema, err := cache.Schema(msg.Descriptor())
+	if err != nil {
+		fmt.Fprintln(os.Stderr, err)
+		os.Exit(1)
+	}
+	obj, ok := rootSchema.(*j5schema.ObjectSchema)
+	if !ok {
+		fmt.Fprintln(os.Stderr, "root is not an object")
+		os.Exit(1)
+	}
+	// the walker's own root
+	ro, err := refl.NewObject(msg)
+	if err != nil {
+		fmt.Fprintln(os.Stderr, err)
+		os.Exit(1)
+	}
+	fmt.Printf("R\t%s\n", q(ro.SchemaName()))
+	visit(obj, msg.Descriptor())
+	for _, l := range out {
+		fmt.Println(l)
+	}
+	sort.Strings(enumOut)
+	for _, l := range enumOut {
+		fmt.Println(l)
+	}
+	for _, p := range problems {
+		fmt.Printf("X\t%s\n", q(p))
+	}
+}
+`
 
 func leanOptQ(s string) (string, error) {
 	if s == "none" {
@@ -651,6 +908,9 @@ func extractWalkerSchema(w *strings.Builder) error {
 	var enums []string
 	var problems []string
 	for _, line := range strings.Split(strings.TrimRight(string(out), "\n"), "\n") {
+		if line == "" {
+			continue // a schema without properties
+		}
 		f := strings.Split(line, "\t")
 		switch f[0] {
 		case "R":
